@@ -86,11 +86,20 @@ class HTap(ec.Tap):
         probe = None
         if w is not None:
             ct = getattr(p, "current_time", None)
-            probe = [w.packets_rec, len(w.store.items), sum(1 for x in w.store.items if x is p),
+            probe = [w.packets_rec, len(w.store.items), sum(1 for x in w.store.items if _entry_pkt(x) is p),
                      None if ct is None else ec.qs(ct), w.out is self]
         self.h._emit(["out", self.tag, uid, ec.pkt_fields(p), id(p) == id(self.h.packets.get(uid)), probe])
         if self.nxt is not None:                      # relay: forward the very same object
             self.nxt.put(p)
+
+
+def _entry_pkt(x):
+    """a Wire's store entry is (entry instant, packet) since fix 965d42d; the bare packet before"""
+    return x[1] if isinstance(x, tuple) else x
+
+
+def _entry_stamp(x):
+    return x[0] if isinstance(x, tuple) else getattr(x, "current_time", None)
 
 
 def _loss_val(x):
@@ -209,9 +218,9 @@ def run_canary(wmod):
 # into coq/Gen/Extracted_wire.v; bridged to the WPut step of Elem/Wire.v by coq/Elem/WireBridge.v; obligations in
 # Props/C10_Bridge.v.
 
-WIRE_CONS = [("FxStampCurrent", "(t : Q)"),          # packet.current_time = t
-             ("FxStorePut", "")]                     # self.store.put(packet)
-WIRE_FX = [("packet.current_time = _1", "FxStampCurrent", ["Q"]), ("self.store.put(packet)", "FxStorePut", [])]
+WIRE_CONS = [("FxStampCurrent", "(t : Q)"),          # packet.current_time = t      (kept for compatibility; run() does not read it)
+             ("FxStorePut", "(t : Q)")]              # self.store.put((t, packet))  the entry instant travels with the queued entry
+WIRE_FX = [("packet.current_time = _1", "FxStampCurrent", ["Q"]), ("self.store.put((_1, packet))", "FxStorePut", ["Q"])]
 WIRE_READS = [("self.debug", "debug", "bool"), ("self.env.now", "now", "Q")]
 
 
@@ -227,12 +236,12 @@ def extracted_wire(repo):
 # WGet u d / WTimer steps of Elem/Wire.v by coq/Elem/WireRunBridge.v; obligations in Props/C10_BridgeRun.v
 WIRE_RUN_READS = [("self.loss_rate", "loss_rate", "optQ"),          # None | number: `not self.loss_rate`
                   ("self.env.now", "now", "Q"), ("env.now", "now", "Q"),
-                  ("packet.current_time", "current_time", "Q"),
+                  ("entry[0]", "entered", "Q"),                     # the store entry is (entry instant, packet)
                   ("self.debug", "debug", "bool"),
                   ("self.out", "out_set", "optobj")]
 WIRE_RUN_DRAWS = [("random.uniform(0, 1)", "u", "Q", "FxUniform"),  # consumed only where Python evaluates it
                   ("self.delay_dist()", "dd", "Q", "FxDelayDist")]
-WIRE_RUN_FX = [("self.out.put(packet)", "FxOutPut", [])]
+WIRE_RUN_FX = [("self.out.put(entry[1])", "FxOutPut", [])]
 WIRE_RUN_FX_CONS = [("FxUniform", ""), ("FxDelayDist", ""), ("FxOutPut", "")]
 WIRE_RUN_REQUESTS = [("self.store.get()", "RqStoreGet", [], "obj"),  # resumes with the packet
                      ("env.timeout(_1)", "RqTimeout", ["Q"], None),
@@ -244,7 +253,7 @@ def extracted_wire_run(repo):
     import os
     from vlib import translate_gen as tg
     spec = tg.GenSpec(os.path.join(repo, "onl", "netdev", "wire.py"), "Wire", "run", "gen_Wire_run", reads=WIRE_RUN_READS,
-                      draws=WIRE_RUN_DRAWS, effects=WIRE_RUN_FX, requests=WIRE_RUN_REQUESTS, objects=["packet"])
+                      draws=WIRE_RUN_DRAWS, effects=WIRE_RUN_FX, requests=WIRE_RUN_REQUESTS, objects=["entry"])
     return tg.gen_run_module("onl/netdev/wire.py: Wire.run", spec, [], None, "", "wire_run_fx", WIRE_RUN_FX_CONS,
                              WIRE_RUN_REQ_CONS, types="wire_run")
 
@@ -451,7 +460,7 @@ class WirePart:
 
     @staticmethod
     def _final(wires):
-        return {"stores": [[getattr(p, "uid", None) for p in w.store.items] for w in wires],
+        return {"stores": [[getattr(_entry_pkt(p), "uid", None) for p in w.store.items] for w in wires],
                 "packets_rec": [w.packets_rec for w in wires]}
 
     def _run_wire(self, case, env, h, wmod, S):
